@@ -74,6 +74,9 @@ func validateBlock(evidencePool EvidencePool, store Store, state LatestBlockStat
 
 	// Validate block LastCommit
 	if block.Height() == state.InitialHeight {
+		if block.LastCommit() == nil {
+			return ErrLastCommitSig
+		}
 		if len(block.LastCommit().Signatures) != 0 {
 			return ErrLastCommitSig
 		}
